@@ -224,9 +224,9 @@ func prioGen(raw bool) func(rng *proto.RNG, tier string, shard, nshards int, w *
 		kinds := []string{"p", "s"}
 		// (ii) exhaustive: all sequences over {append p∈0..2, set-priority of the oldest/newest
 		// element to p∈0..2, set (same / other priority), clear} up to maxLen
-		maxLen := 5
+		maxLen := 4
 		if tier == "thorough" {
-			maxLen = 6
+			maxLen = 5
 		}
 		for _, kind := range kinds {
 			nAlpha := 3 + 3 + 3 + 2 + 1
